@@ -12,8 +12,8 @@ import sys
 import time
 
 VERIF = os.path.dirname(os.path.dirname(os.path.abspath(__file__)))
-WT = "/tmp/wt/confirm"
-TGT = "/tmp/wt/confirm-target"
+WT = os.environ.get("CONFIRM_WT", "/tmp/wt/confirm")
+TGT = WT + "-target"
 ALWAYS_FAIL = {"rsp_ql_dstream_semantics"}
 JOBS = os.environ.get("CONFIRM_JOBS", "8")
 
@@ -74,6 +74,18 @@ def main():
             rc, out = sh("cargo test --workspace --offline --no-fail-fast --lib --bins --tests -j %s" % JOBS, timeout=7200)
             p, f = results(out)
             other = [x for x in f if x.split("::")[-1] not in ALWAYS_FAIL and x not in rec["demo_with_change"]["failed"]]
+            # sleep-timed tests of rsp_engine_test fail under machine load: re-run each such failure alone, up to three times
+            retried = {}
+            for t in list(other):
+                for attempt in range(3):
+                    rc2, out2 = sh("cargo test --offline -j %s -p kolibrie --test rsp_engine_test %s -- --exact" % (JOBS, t.split("::")[-1]))
+                    p2, f2 = results(out2)
+                    if rc2 == 0 and p2 >= 1:
+                        retried[t] = "passed alone on attempt %d" % (attempt + 1)
+                        other.remove(t)
+                        break
+            if retried:
+                rec["flaky_retried"] = retried
             rec["suite_with_change"] = {"cmd": "cargo test --workspace --offline --no-fail-fast --lib --bins --tests", "rc": rc, "passed": p,
                                         "failed": f, "failed_other_than_demo_and_always_fail": other,
                                         "compiled": "error: could not compile" not in out}
